@@ -68,8 +68,8 @@ def cases(rng, tier):
 		steps = []
 		for _ in range(rng.randrange(2, 5)):
 			route = rng.choice(('params', 'props', 'user-only', 'pass-only', 'same'))
-			u = bytes(rng.choice(b'abcXYZ09_') for _ in range(rng.choice((0, 1, 5, 20))))
-			p = bytes(rng.choice(b'abc:XYZ09 _') for _ in range(rng.choice((0, 1, 5, 40, 80))))
+			u = bytes(rng.choice(b'abcXYZ09_"\\ ,=') for _ in range(rng.choice((0, 1, 5, 20))))
+			p = bytes(rng.choice(b'abc:XYZ09 _"\\,=') for _ in range(rng.choice((0, 1, 5, 40, 80))))
 			steps.append((route, u, p))
 		yield ('seq', tuple(steps))
 
